@@ -5,9 +5,10 @@ W1 = ("workload W1: networks of real beacon Handlers (schemes x (n,t) in {(1,1),
       "shares that injects 12 kinds of hostile partials and serves 8 kinds of lying sync streams; ")
 PART = {
     "C01": {
-        "runs": [{"name": "beaconnet", "pkg": P, "run": "^TestVF_C01", "timeout": "30m", "timeout_thorough": "120m", "race_thorough": True}],
+        "runs": [{"name": "beaconnet", "pkg": P, "run": "^TestVF_C01_Net$", "timeout": "30m", "timeout_thorough": "120m", "race_thorough": True},
+                 {"name": "beaconnet-manual", "pkg": P, "run": "^TestVF_C01_Manual$", "timeout": "30m", "timeout_thorough": "120m"}],
         "rule": W1 + "oracle: every Put reaching a node's base store and every beacon an honest node serves on SyncChain is verified against the harness-generated group key; stores re-opened and "
-                "re-verified at the end; non-trivial = the network produced >= 3 rounds; distinct = distinct scenario parameters",
+                "re-verified at the end; non-trivial = the network produced >= 3 rounds; distinct = distinct scenario parameters || manual network: the chosen-arrival-order workload of C03 (contributor subsets, permutations, hostile partials, one round withheld from one node so that it sees the next round's partials first) with the same verification oracle at every Put",
         "assumptions": ["kyber VerifyRecovered is the reference", "the harness generated the group key itself"],
     },
     "C02": {
